@@ -5,6 +5,7 @@ import (
 	"go/ast"
 	"go/token"
 	"go/types"
+	"os"
 	"sort"
 	"strings"
 
@@ -25,6 +26,7 @@ func init() {
 	ruleText["R12.1"] = "a call of Execute on a program produced by a compile step is dominated by the branch on which that compile step's error is nil; in importSrc no control-flow path leads from run/genRun back to gta/gtaRetry/cfg"
 	ruleText["R12.2"] = "no function reachable from (*Interpreter).CompileAST on the static call graph calls (*Interpreter).run or runCfg"
 	ruleText["R12.3"] = "in the compile passes, a call returning an error is never an expression statement; `_`-discards are limited to the frozen (function, callee) table; an error definition does not reach a later possibly-nil definition of the same variable without an intervening read"
+	ruleText["R12.5"] = "(a) inside the callbacks of cfg/gta no variable that shadows the pass's error variable receives the error of an in-package call; (b) every post-order case of cfg that wires the false branch of a condition child (setFNext on a local bound from n.child[k]) also checks that the condition is boolean, like its siblings"
 	ruleText["R12.4"] = "every method of type typecheck is reachable from (*Interpreter).cfg on the static call graph (a rule whose call was dropped is dead code)"
 }
 
@@ -38,6 +40,189 @@ func runC12(c *Config, r *Report) {
 	c12R2(ic, r)
 	c12R3(ic, r)
 	c12R4(ic, r)
+	c12R5(ic, r)
+}
+
+// shadow exceptions: function -> callee, with the reason.
+var c12Shadows = map[string]string{
+	"Interpreter.cfg -> nodeType": "funcDecl pre-order: a receiver type that cannot be resolved here (generic receiver) makes the walk skip the method subtree on purpose; undefined receiver types of ordinary methods are reported by gta before cfg runs",
+}
+
+// c12R5: (a) no variable declared inside a pass callback shadows the pass's error variable
+// while receiving the error of an in-package call: such an error can never reach the
+// variable the pass returns; (b) sibling agreement: every post-order case of cfg that
+// wires a false branch for a condition child checks that the condition is boolean.
+func c12R5(ic *IC, r *Report) {
+	n := 0
+	for _, name := range []string{"Interpreter.cfg", "Interpreter.gta"} {
+		fi := ic.F[name]
+		if fi == nil || fi.Decl.Body == nil {
+			r.Errorf("anchor not resolved: %s", name)
+			continue
+		}
+		seen := map[string]bool{}
+		ast.Inspect(fi.Decl.Body, func(nd ast.Node) bool {
+			fl, ok := nd.(*ast.FuncLit)
+			if !ok {
+				return true
+			}
+			ast.Inspect(fl.Body, func(m ast.Node) bool {
+				as, ok := m.(*ast.AssignStmt)
+				if !ok || as.Tok != token.DEFINE || len(as.Rhs) != 1 {
+					return true
+				}
+				call, ok := unparen(as.Rhs[0]).(*ast.CallExpr)
+				if !ok || !inPkgCallee(ic, call) {
+					return true
+				}
+				for _, l := range as.Lhs {
+					id, ok := l.(*ast.Ident)
+					if !ok {
+						continue
+					}
+					v, ok := ic.Info.Defs[id].(*types.Var)
+					if !ok || !isErrorType(v.Type()) {
+						continue
+					}
+					n++
+					sc := ic.Pk.Types.Scope().Innermost(fl.Pos())
+					if sc == nil {
+						continue
+					}
+					_, o := sc.LookupParent(id.Name, fl.Pos())
+					ov, ok := o.(*types.Var)
+					if !ok || !isErrorType(ov.Type()) || ov.Parent() == ic.Pk.Types.Scope() || !(ov.Pos() >= fi.Decl.Pos() && ov.Pos() < fl.Pos()) {
+						continue
+					}
+					cn, _ := calleeName(ic, call)
+					key := name + "/shadow:" + cn
+					if seen[key] {
+						continue
+					}
+					seen[key] = true
+					if why, ok := c12Shadows[name+" -> "+cn]; ok {
+						r.Pass("R12.5", key, ic.pos(as.Pos()), "frozen exception: "+why)
+						continue
+					}
+					r.Fail("R12.5", key, ic.pos(as.Pos()), "the error of "+cn+" is received by a new variable "+id.Name+" that shadows the error variable returned by "+name+" (declared at "+ic.pos(ov.Pos())+"): whatever the callback does with it, the pass returns nil and the program is accepted")
+				}
+				return true
+			})
+			return true
+		})
+		r.Pass("R12.5", name+"/shadow-scan", ic.pos(fi.Decl.Pos()), "callbacks scanned for error variables shadowing the pass's error variable")
+	}
+	// (b) condition checks
+	cfgFn := ic.F["Interpreter.cfg"]
+	if cfgFn == nil {
+		return
+	}
+	isBoolFn := ic.F["isBool"]
+	var boolObj *types.Func
+	if isBoolFn != nil {
+		boolObj = isBoolFn.Obj
+	}
+	if boolObj == nil {
+		r.Errorf("anchor not resolved: isBool")
+		return
+	}
+	// helpers: functions that call isBool directly, or call such a function (direct calls
+	// only; function values are not followed, they would reach the whole run-time).
+	reachesBool := map[*types.Func]bool{boolObj: true}
+	for depth := 0; depth < 2; depth++ {
+		for f, fi := range ic.G.Funcs {
+			if reachesBool[f] || fi.Decl.Body == nil {
+				continue
+			}
+			ast.Inspect(fi.Decl.Body, func(k ast.Node) bool {
+				if c, ok := k.(*ast.CallExpr); ok {
+					if g, ok := calleeOf(ic.Info, c).(*types.Func); ok && reachesBool[g] && g != f {
+						reachesBool[f] = true
+					}
+				}
+				return true
+			})
+		}
+	}
+	sites := 0
+	ast.Inspect(cfgFn.Decl.Body, func(nd ast.Node) bool {
+		cc, ok := nd.(*ast.CaseClause)
+		if !ok || len(cc.List) == 0 {
+			return true
+		}
+		// locals bound from n.child[k] at the top level of the case
+		locals := map[types.Object]bool{}
+		for _, st := range cc.Body {
+			as, ok := st.(*ast.AssignStmt)
+			if !ok || as.Tok != token.DEFINE {
+				continue
+			}
+			for i, l := range as.Lhs {
+				if i >= len(as.Rhs) {
+					break
+				}
+				id, ok := l.(*ast.Ident)
+				if !ok {
+					continue
+				}
+				if ix, ok := unparen(as.Rhs[i]).(*ast.IndexExpr); ok {
+					if se, ok := unparen(ix.X).(*ast.SelectorExpr); ok && se.Sel.Name == "child" {
+						if rid, ok := unparen(se.X).(*ast.Ident); ok && rid.Name == "n" {
+							locals[ic.Info.ObjectOf(id)] = true
+						}
+					}
+				}
+			}
+		}
+		if len(locals) == 0 {
+			return true
+		}
+		for _, st := range cc.Body {
+			ast.Inspect(st, func(m ast.Node) bool {
+				call, ok := m.(*ast.CallExpr)
+				if !ok || !isCallTo(ic.Info, call, "interp.setFNext") || len(call.Args) != 2 {
+					return true
+				}
+				id, ok := unparen(call.Args[0]).(*ast.Ident)
+				if !ok || !locals[ic.Info.ObjectOf(id)] {
+					return true
+				}
+				cond := ic.Info.ObjectOf(id)
+				sites++
+				label := types.ExprString(cc.List[0])
+				// is there a boolean check of cond in this case?
+				checked := false
+				for _, st2 := range cc.Body {
+					ast.Inspect(st2, func(k ast.Node) bool {
+						c2, ok := k.(*ast.CallExpr)
+						if !ok {
+							return true
+						}
+						f, _ := calleeOf(ic.Info, c2).(*types.Func)
+						if f == nil || !reachesBool[f] {
+							return true
+						}
+						for _, a := range c2.Args {
+							if rid := rootIdent(a); rid != nil && ic.Info.ObjectOf(rid) == cond {
+								checked = true
+								if os.Getenv("YVERIF_DEBUG") != "" {
+									fmt.Println("    cond check via", f.Name(), ic.pos(c2.Pos()))
+								}
+							}
+						}
+						return true
+					})
+				}
+				r.Check(checked, "R12.5", "cfg/case:"+label+"/cond-is-bool", ic.pos(call.Pos()), "the condition's type is checked to be boolean before its false branch is wired",
+					"post-order case "+label+" wires the false branch of condition "+id.Name+" (setFNext) but, unlike its sibling cases, never checks that the condition is boolean (no call reaching isBool on it): a non-boolean condition is accepted in this statement form")
+				return true
+			})
+		}
+		return true
+	})
+	if sites < 6 {
+		r.Errorf("R12.5: only %d condition-wiring cases found in cfg (for/if forms expected)", sites)
+	}
 }
 
 func isErrorType(t types.Type) bool { return t != nil && types.TypeString(t, nil) == "error" }
